@@ -394,7 +394,7 @@ def run(ctx):
     stats = dict(container=0, discovery=0, statuses={}, flags={}, diffs=0)
     seen = set(); distinct = 0
     import glob, json
-    corpus = [json.load(open(f)) for f in sorted(glob.glob("/verif/corpus/C13/*.json"))]
+    corpus = [c for c in (json.load(open(f)) for f in sorted(glob.glob("/verif/corpus/C13/*.json"))) if "seed" in c and "kind" in c]
     stats["corpus_cases"] = len(corpus)
     for i in range(-len(corpus), n):
         c = corpus[i + len(corpus)] if i < 0 else None
